@@ -119,6 +119,17 @@ def gen_strings(rng, n):
                 elif k < 0.7: s = s[:i] + rng.choice(["/", "*", "⋅", "^", "²", " ", "5", "-", "$", "%", "m", "^^", "//", "⁻", "e", ".", "é", "\t", "\n"]) + s[i:]
                 else: s = s[:i] + s[i:][::-1]
         out.append(s)
+    # every shape of numeric literal the grammar names: sign x (digits | digits. | .digits | digits.digits) x (no exponent | e/E [sign] digits),
+    # glued to and separated from a unit, plus what Python itself prints for floats and Decimals
+    lits = []
+    for sign in ("", "-", "+"):
+        for body in ("1", "15", "1.", ".5", "1.5", "12.25", "0", "00.10"):
+            for ex in ("", "e3", "E3", "e+3", "E+3", "e-2", "E-1", "e03", "E", "e", "e+"):
+                lits.append(sign + body + ex)
+    lits += ["2.5E+3", "1E+16", "1e+16", "6.02E23", "1.5E-1", "+.5E-1", "1E3", "1.E3", ".1E3", "1e3e3", "1.2.3", "1E3.5", "1..5", "--1", "+-1", "1 e3", "1e 3"]
+    for l_ in lits:
+        out.append(l_ + " m"); out.append(l_ + "m"); out.append(l_ + " " + rng.choice(["kg m/s^2", "s⁻¹", "K", "ft."]))
+    out += [l_ for l_ in lits[::4]]
     out += ["", " ", "m", "m/s", "m//s", "m/s/s", "5", "5 5 m", "m^", "m^-", "m⁻", "5 m/", "/m", "*m", "m*", "m⋅⋅s", "m ² s", "1/s", "m^2^3", "5e m", "m²", "m s"]
     return out
 
